@@ -16,7 +16,7 @@ ASSUMPTIONS = ["bitwise comparison of every array reachable from the return valu
 ENTRY = ["random_tensor", "random_cp", "random_tucker", "random_tt", "random_tt_matrix", "random_tr", "random_parafac2",
          "parafac", "parafac_svd_pad", "nn_parafac", "nn_parafac_hals", "constrained_parafac", "randomised_parafac", "tucker", "tucker_randomized_svd",
          "nn_tucker", "nn_tucker_hals", "parafac2", "tr_als", "tr_als_sampled", "tt_cross", "randomized_svd", "sample_khatri_rao",
-         "cp_regressor", "tucker_regressor", "cp_plsr", "initialize_cp", "initialize_tucker", "initialize_constrained", "initialize_parafac2",
+         "cp_regressor", "tucker_regressor", "cp_plsr", "estimator_refit", "initialize_cp", "initialize_tucker", "initialize_constrained", "initialize_parafac2",
          "seedfree_decomp", "seedfree_tenalg"]
 CASE_TIMEOUT = {"quick": 120, "thorough": 3000}
 WALL_BUDGET = {"quick": 900, "thorough": 5400}
@@ -201,6 +201,44 @@ def build(entry, rs):
                 e = CP_PLSR(n_components=min(2, min(fsh)), random_state=s).fit(Xr, y)
                 return [list(e.X_factors), list(e.Y_factors), e.predict(Xr)]
         return f, dict(d, shape=[n] + fsh)
+    if entry == "estimator_refit":
+        # the same estimator object fitted twice, and a clone built from get_params(): an integer seed must give the same fit each time
+        n = int(rs.randint(8, 20))
+        fsh = gen.shape(rs, 2, 2, 4)
+        Xr = rs.standard_normal([n] + fsh)
+        y = rs.standard_normal(n)
+        kind = gen.choice(rs, ["cp", "tucker", "plsr", "CP", "Tucker", "Parafac2", "TensorRingALS", "RandomizedCP", "ConstrainedCP", "CP_NN_HALS"])
+
+        def f(s):
+            if kind in ("cp", "tucker", "plsr"):
+                mk = {"cp": lambda: CPRegressor(weight_rank=2, n_iter_max=it, random_state=s, verbose=0),
+                      "tucker": lambda: TuckerRegressor(weight_ranks=[2, 2], n_iter_max=it, random_state=s, verbose=0),
+                      "plsr": lambda: CP_PLSR(n_components=2, random_state=s)}[kind]
+                grab = {"cp": lambda e: [e.weight_tensor_], "tucker": lambda e: [e.weight_tensor_], "plsr": lambda e: list(e.X_factors)}[kind]
+                e = mk()
+                first = grab(e.fit(Xr, y))
+                refit = grab(e.fit(Xr, y))
+                c = mk().set_params(**e.get_params())
+                clone = grab(c.fit(Xr, y))
+            else:
+                Xd = np.abs(X) if kind in ("ConstrainedCP", "CP_NN_HALS") else X
+                kw = {"CP": dict(rank=Rk, n_iter_max=it, init="random"), "Tucker": dict(rank=[min(2, s_) for s_ in shp], n_iter_max=it, init="random"),
+                      "TensorRingALS": dict(rank=[1] + [2] * (order - 1) + [1], n_iter_max=it), "RandomizedCP": dict(rank=Rk, n_samples=10, n_iter_max=it, max_stagnation=0),
+                      "ConstrainedCP": dict(rank=Rk, n_iter_max=it, init="random", non_negative=True), "CP_NN_HALS": dict(rank=Rk, n_iter_max=it, init="random")}.get(kind)
+                if kind == "Parafac2":
+                    sl = [np.abs(Xr[i]) for i in range(3)]
+                    e = D.Parafac2(rank=2, n_iter_max=it, random_state=s, return_errors=True)
+                    first = e.fit_transform(sl)
+                    refit = e.fit_transform(sl)
+                    clone = D.Parafac2(rank=2, n_iter_max=it, random_state=s, return_errors=True).fit_transform(sl)
+                else:
+                    Cls = getattr(D, kind)
+                    e = Cls(random_state=s, **kw)
+                    first = e.fit_transform(Xd)
+                    refit = e.fit_transform(Xd)
+                    clone = Cls(random_state=s, **kw).fit_transform(Xd)
+            return {"a_first": first, "b_refit": refit, "c_clone": clone}
+        return f, dict(d, kind=kind, refit=True)
     if entry == "initialize_cp":
         o = {"init": gen.choice(rs, ["random", "svd"]), "non_negative": bool(rs.rand() < 0.3), "normalize_factors": bool(rs.rand() < 0.3)}
         Rr = Rk if o["init"] == "random" else max(shp) + 1
@@ -285,6 +323,14 @@ def _run_case(case, ctx):
         theirs = p.stdout.strip().splitlines()[-1] if p.stdout.strip() else "child failed: " + p.stderr[-200:]
         if mine != theirs:
             ctx.violation("C16:%s:fresh-process:any" % entry, "a fresh interpreter called with random_state=%d returns a different result (%s vs %s)" % (seed, mine[:12], theirs[:40]), desc)
+            return
+    if desc.get("refit"):
+        parts = f(seed)
+        ctx.count("clause/estimator-refit")
+        b = {k: flat_bytes(v) for k, v in parts.items()}
+        if not (b["a_first"] == b["b_refit"] == b["c_clone"]):
+            which_ = "refit" if b["a_first"] != b["b_refit"] else "clone"
+            ctx.violation("C16:estimator_refit:%s-differs:%s" % (which_, desc["kind"]), "estimator %s built with random_state=%d: the %s gives a different fit than the first fit" % (desc["kind"], seed, which_), desc)
             return
     ctx.count("clause/same-int-seed")
     if out1 != out2:
